@@ -901,3 +901,503 @@ def gen_strided_views(rng):
     if rng.random() < 0.5:
         p.push({'op': 'norm', 'a': a}, {'kind': 'scalar'})
     return p.case()
+
+
+# ---- targeted: the input classes of every function with a compiled twin (coverage audit, see harness/c04_audit.py) ----------------
+# Each stratum below is one program family aimed at branch conditions of tenpy/linalg/_npc_helper.pyx (and the lines of the Python
+# twins) that random programs reach rarely or never: tensordot with INTEGER axes (the only way non-contiguous / _qdata-sorted
+# operands reach the compiled _tensordot_worker: the (axes_a, axes_b) form always re-transposes into fresh contiguous blocks),
+# split_legs / combine_legs of tensors of rank 4-6 with Fortran-ordered or strided blocks, iadd_prefactor_other with a SHALLOW COPY
+# or a second view of the same buffers as operand, integer tensors, boolean / nan / inf / numpy-typed prefactors, prefactor 0 with a
+# dtype mix, the error classes (different rank / legs / qtotal / ChargeInfo, non-scalar prefactor, non-Array operand, axes of
+# different lengths), and valid programs under optimization level 3 (skip_arg_checks: both twins skip their argument tests).
+# Results are used again (scaled in place, contracted with their conjugate, split after combine, added to each other).
+
+PC_DTYPES = ['float64', 'complex128', 'float32', 'complex64', 'int64']
+PC_PREF = [1.0, -1.0, 2.5, 0.0, 0, 1, -1, 3, ['c', 0.0, 1.0], ['c', 1.5, -0.5], ['c', 2.0, 0.0], ['c', 0.0, 0.0], ['c', 1.0, 0.0],
+           ['b', True], ['b', False], ['n', 'bool', 1, 0], ['n', 'float64', -1.0, 0.0], ['n', 'float32', 1.0, 0.0], ['n', 'int64', -1, 0],
+           ['n', 'int64', 0, 0], ['n', 'complex128', 0.0, 2.0], ['n', 'complex64', 1.0, 0.0], ['n', 'float64', 0.0, 0.0],
+           1e-300, 1e300]        # (finite only: see the assumption on non-finite prefactors in harness/c04.py)
+PC_BAD_PREF = [['raw', 'array0d'], ['raw', 'list'], ['raw', 'none'], ['raw', 'str'], ['raw', 'array1']]
+PC_LAYOUT = [None, 'F', 'strided']
+
+
+# (dtype self, dtype other, prefactor, alias, layout self, layout other, fills): integer arithmetic, shared buffers without BLAS,
+# the same object with a complex prefactor / prefactor 0, shared buffers under different block tables
+PC_IADD_FORCED = [
+    ('int64', 'int64', 1, 'none', None, None, (0.6, 0.6)), ('int64', 'int64', -1.0, 'none', None, 'strided', (0.5, 1.0)),
+    ('int64', 'int64', 3, 'same-blocks', 'F', None, (1.0, 1.0)), ('int64', 'int64', 0, 'none', None, None, (1.0, 0.5)),
+    ('float32', 'float32', 2.5, 'shallow', None, None, (1.0, 1.0)), ('complex64', 'complex64', ['c', 0.0, 1.0], 'shallow', None, None, (1.0, 1.0)),
+    ('int64', 'int64', ['b', True], 'shallow', None, None, (1.0, 1.0)), ('complex128', 'complex128', ['c', 1.5, -0.5], 'self', None, None, (1.0, 1.0)),
+    ('float64', 'float64', 0.0, 'self', None, None, (1.0, 1.0)), ('float64', 'float64', 2.5, 'shallow-extend', None, None, (1.0, 1.0)),
+    ('complex128', 'complex128', -1.0, 'shallow-extend', None, None, (1.0, 1.0)), ('float64', 'float64', 3, 'shallow-extend', None, None, (1.0, 1.0)),
+    ('float64', 'complex128', 0.0, 'none', None, None, (0.6, 0.6)), ('float64', 'float64', ['n', 'bool', 1, 0], 'none', 'asfortran', None, (0.6, 0.6)),
+    ('float64', 'float64', 1.0, 'shallow', 'asfortran', None, (1.0, 1.0)), ('complex128', 'float64', ['c', 0.0, 2.0], 'shallow', 'F', None, (1.0, 1.0)),
+]
+
+
+# (dtype, prefactor, layout, fill, operation): the BLAS routine x memory layout classes and the argument classes of iscale_prefactor
+PC_ISCALE_FORCED = [
+    ('complex128', ['c', 0.0, 1.0], 'F', 1.0, 'iscale_prefactor'), ('complex128', 2.0, 'asfortran', 1.0, 'iscale_prefactor'),
+    ('float64', -3.0, 'F', 1.0, 'iscale'), ('float32', 2.0, 'F', 1.0, 'iscale_prefactor'), ('complex128', ['c', 1.5, -0.5], 'strided', 1.0, 'iscale_prefactor'),
+    ('complex128', ['c', 2.0, 0.0], 'strided', 1.0, 'iscale'), ('float64', ['n', 'bool', 1, 0], None, 0.7, 'iscale_prefactor'),
+    ('int64', ['b', True], 'strided', 1.0, 'iscale_prefactor'), ('float64', ['raw', 'array0d'], None, 1.0, 'iscale_prefactor'),
+    ('complex64', ['n', 'complex64', 1.0, 1.0], 'asfortran', 1.0, 'iscale_prefactor'), ('int64', ['n', 'int64', 3, 0], 'F', 1.0, 'iscale_prefactor'),
+    ('float64', 0.0, 'strided', 1.0, 'iscale_prefactor'), ('float64', ['raw', 'none'], None, 0.0, 'iscale_prefactor'),
+    ('float64', ['n', 'float32', 0.5, 0.0], None, 1.0, 'iscale'), ('float32', ['n', 'float64', 2.0, 0.0], 'strided', 1.0, 'iscale_prefactor'),
+    ('float64', ['n', 'complex128', 0.0, 2.0], None, 0.0, 'iscale_prefactor'), ('complex128', -1, 'strided', 0.5, 'iscale_prefactor'),
+]
+
+
+def _pc_prog(rng, nq=None, nblocks=None, sizes=(1, 1, 2, 2, 3)):
+    """a Prog whose pool legs have distinct (mostly) charges and the given number of blocks"""
+    p = Prog(rng, empty_blocks=False, bad_rate=0.0, worker_rate=0.0)
+    if nq is not None:
+        p.mods = [rng.choice([1, 2, 3, 5]) for _ in range(nq)]
+    for k in range(len(p.pool)):
+        nb = nblocks or rng.choice([1, 2, 3, 3, 4])
+        ch = []
+        while len(ch) < nb:
+            c = gen_charge(rng, p.mods)
+            if c not in ch or rng.random() < 0.2 or len(p.mods) == 0 or len(ch) > 4:
+                ch.append(c)
+        if rng.random() < 0.5:
+            ch.sort(key=lambda r: tuple(reversed(r)))
+        p.pool[k] = {'sizes': [rng.choice(sizes) for _ in range(nb)], 'charges': ch, 'qconj': rng.choice([1, -1]),
+                     'claim': rng.random() < 0.5}
+    return p
+
+
+def _pc_fresh(p, rng, types, labels=None, dtype='float64', qtotal=None, fill=None, layout=None):
+    r = p.new(types=[list(t) for t in types], labels=labels if labels is not None else rng.sample(LABELS[:8], len(types)),
+              dtype=dtype, qtotal=qtotal, fill=fill if fill is not None else rng.choice([1.0, 1.0, 0.7]))
+    spec = p.steps[r]['spec']
+    for blk in spec['blocks']:
+        blk['re'] = [rng.randint(1, 9) * rng.choice([1, -1]) for _ in blk['re']]
+        if blk['im'] is not None:
+            blk['im'] = [rng.randint(-4, 4) for _ in blk['re']]
+    if layout:
+        spec['layout'] = layout
+    return r
+
+
+def _pc_relayout(p, rng, r, how):
+    """change the memory layout of the blocks of register r through the public interface"""
+    if how == 'asfortran':
+        p.push({'op': 'iunary', 'a': r, 'f': 'asfortran'}, {'kind': 'none'})
+    elif how == 'real':          # np.real of complex blocks: views with gaps (stride 16, itemsize 8)
+        p.push({'op': 'iunary', 'a': r, 'f': 'real'}, {'kind': 'none'})
+    elif how == 'imag':
+        p.push({'op': 'iunary', 'a': r, 'f': 'imag'}, {'kind': 'none'})
+    elif how == 'sort':
+        p.push({'op': 'isort_qdata', 'a': r}, {'kind': 'none'})
+
+
+def _pc_reuse(p, rng, r, scalar=True):
+    """use a result again: scale it in place, contract it with its conjugate, take the norm"""
+    for _ in range(rng.choice([1, 2])):
+        k = rng.random()
+        if k < 0.35:
+            c = p.push({'op': 'conj', 'a': r}, p.arr_opaque())
+            p.push({'op': rng.choice(['inner', 'w_inner']), 'a': r, 'b': c, 'axes': 'range', 'do_conj': False}, {'kind': 'scalar'})
+        elif k < 0.6:
+            p.push({'op': rng.choice(['iscale', 'iscale_prefactor']), 'a': r, 's': rng.choice([2.0, -1.0, ['c', 0.0, 1.0], 0.5])}, {'kind': 'none'})
+        elif k < 0.8:
+            c = p.push({'op': 'copy_deep', 'a': r}, p.arr_opaque())
+            p.push({'op': rng.choice(['iadd', 'isub', 'iadd_prefactor_other']), 'a': c, 'b': r, 's': rng.choice([2.0, -1.0, 1.0])}, {'kind': 'none'})
+        else:
+            p.push({'op': 'norm', 'a': r}, {'kind': 'scalar'})
+
+
+def pc_tdot_int_axes(rng, dtype_a, dtype_b, lay_a, lay_b, sort_b, nq, keep=None, fill=None, ncon=None):
+    p = _pc_prog(rng, nq=nq, nblocks=rng.choice([2, 3, 3, 4]) if ncon is None else 2)
+    n = ncon or rng.choice([1, 1, 2])
+    ka, kb = rng.choice([0, 1, 1, 2]), rng.choice([0, 1, 1, 2])
+    if keep is not None:                               # (0, k): a fully contracted, (k, 0): b fully contracted
+        ka, kb = keep
+        n = ncon or 2
+    if ka + kb == 0:
+        ka = 1
+    ta = [['L', rng.randrange(len(p.pool)), rng.choice([1, -1])] for _ in range(ka + n)]
+    tb = [conj_t(t) for t in ta[ka:]] + [['L', rng.randrange(len(p.pool)), rng.choice([1, -1])] for _ in range(kb)]
+    la = rng.sample(LABELS[:6], ka + n)
+    lb = rng.sample(LABELS[6:], n + kb)
+    a = _pc_fresh(p, rng, ta, la, dtype_a, layout=lay_a if lay_a in ('F', 'strided') else None, fill=fill or rng.choice([1.0, 0.8, 0.6]))
+    # a qtotal of b that leaves blocks: any
+    b = _pc_fresh(p, rng, tb, lb, dtype_b, layout=lay_b if lay_b in ('F', 'strided') else None, fill=fill or rng.choice([1.0, 0.8, 0.6]))
+    if keep is not None and nq == 0:
+        # by construction a column (row) of the result whose charge matches but which has NO common inner index with the fully
+        # contracted operand: the contracted side keeps only blocks with first contracted index 0, the other side loses exactly
+        # those inside its first column (row)
+        sa, sb = p.steps[a]['spec'], p.steps[b]['spec']
+        if ka == 0:
+            sa['blocks'] = [x for x in sa['blocks'] if x['q'][0] == 0] or sa['blocks']
+            sb['blocks'] = [x for x in sb['blocks'] if not (x['q'][0] == 0 and x['q'][-1] == 0)] or sb['blocks']
+        else:
+            sb['blocks'] = [x for x in sb['blocks'] if x['q'][0] == 0] or sb['blocks']
+            sa['blocks'] = [x for x in sa['blocks'] if not (x['q'][ka] == 0 and x['q'][0] == 0)] or sa['blocks']
+    for r, l in ((a, lay_a), (b, lay_b)):
+        if l in ('asfortran', 'real', 'imag'):
+            _pc_relayout(p, rng, r, l)
+    if sort_b in ('b', 'both'):
+        _pc_relayout(p, rng, b, 'sort')
+    if sort_b in ('a', 'both'):
+        _pc_relayout(p, rng, a, 'sort')
+    res = []
+    for _ in range(rng.choice([1, 2])):
+        op = rng.choice(['tensordot', 'tensordot', 'w_tensordot'])
+        st = {'op': op, 'a': a, 'b': b, 'axes': n}
+        if rng.random() < 0.25:
+            st['axes_np'] = True
+        r = p.push(st, p.arr_opaque() if op == 'tensordot' else {'kind': 'tuple'})
+        if op == 'tensordot':
+            res.append(r)
+    if res:
+        _pc_reuse(p, rng, res[-1])
+    if len(res) == 2:
+        p.push({'op': 'isub', 'a': res[0], 'b': res[1]}, {'kind': 'none'})       # equal results: difference without values
+        p.push({'op': 'norm', 'a': res[0]}, {'kind': 'scalar'})
+    return p.case()
+
+
+def pc_combine_split(rng, dtype, rank, how, relayout, nested, fill=None, one_group=None):
+    """a tensor of rank 3-6, combine_legs (groups of 2-3 legs), optionally a second combine over the pipe (nested pipes), a change of
+    the memory layout, then split_legs (public and worker), and the result used again"""
+    p = _pc_prog(rng, nq=rng.choice([0, 1, 1, 2]), nblocks=None if rank <= 4 else rng.choice([1, 2, 2]),
+                 sizes=(1, 1, 2, 2, 3) if rank <= 4 else (1, 1, 2))
+    types = [['L', rng.randrange(len(p.pool)), rng.choice([1, -1])] for _ in range(rank)]
+    labels = rng.sample(LABELS[:8], rank)
+    a = _pc_fresh(p, rng, types, labels, dtype, layout=how if how in ('F', 'strided') else None,
+                  fill=fill if fill is not None else rng.choice([1.0, 1.0, 0.6, 0.3]))
+    if how in ('asfortran', 'real', 'imag'):
+        _pc_relayout(p, rng, a, how)
+    axes = list(range(rank))
+    if rng.random() < 0.6:
+        rng.shuffle(axes)
+    ng = 1 if rank < 4 or rng.random() < 0.5 or one_group else 2
+    groups = []
+    for _ in range(ng):
+        k = rng.choice([2, 2, 3]) if len(axes) >= 3 else min(2, len(axes))
+        if one_group:
+            k = one_group
+        g, axes = axes[:k], axes[k:]
+        if g:
+            groups.append(sorted(g) if rng.random() < 0.6 else g)
+    st = {'op': rng.choice(['combine', 'combine', 'w_combine']), 'a': a, 'groups': [[labels[i] if rng.random() < 0.5 else i for i in g] for g in groups],
+          'new_axes': None, 'qconj': None}
+    if st['op'] == 'combine' and rng.random() < 0.3:
+        st['qconj'] = [rng.choice([1, -1]) for _ in groups]
+    c = p.push(st, p.arr_opaque())
+    if nested and rank - sum(len(g) for g in groups) + len(groups) >= 2:
+        c = p.push({'op': 'combine', 'a': c, 'groups': [[0, 1]], 'new_axes': None, 'qconj': None}, p.arr_opaque())
+    if relayout:
+        _pc_relayout(p, rng, c, relayout)
+    if rng.random() < 0.3:
+        _pc_relayout(p, rng, c, 'sort')
+    s = None
+    for _ in range(rng.choice([1, 2])):
+        op = rng.choice(['split', 'w_split'])
+        s = p.push({'op': op, 'a': c, 'axes': None, 'cutoff': rng.choice([0.0, 0.0, 1e-16])}, p.arr_opaque())
+    if nested and rng.random() < 0.7:
+        s = p.push({'op': rng.choice(['split', 'w_split']), 'a': s, 'axes': None, 'cutoff': 0.0}, p.arr_opaque())
+    _pc_reuse(p, rng, s)
+    _pc_reuse(p, rng, c)
+    return p.case()
+
+
+def pc_iadd(rng, dtype_a, dtype_b, pref, alias, lay_a, lay_b, fills, err=None):
+    p = _pc_prog(rng, nq=rng.choice([0, 1, 1, 2]), sizes=(1, 2, 2, 3))
+    p.allow_alias_writes = True
+    rank = rng.choice([1, 2, 2, 3])
+    types = [['L', rng.randrange(len(p.pool)), rng.choice([1, -1])] for _ in range(rank)]
+    labels = rng.sample(LABELS[:8], rank)
+    if alias == 'views':
+        # two views of the SAME index of one source: equal legs/qtotal/blocks and the SAME (non-contiguous) buffers
+        src_t = types[:1] + [['L', rng.randrange(len(p.pool)), 1]] + types[1:]
+        src_l = labels[:1] + ['p'] + labels[1:]
+        src = _pc_fresh(p, rng, src_t, src_l, dtype_a, fill=1.0)
+        ln = sum(p.pool[src_t[1][1]]['sizes'])
+        i = rng.randrange(ln)
+        a = p.push({'op': 'take_slice', 'a': src, 'indices': [i], 'axes': ['p']}, p.arr(types, labels))
+        b = p.push({'op': 'getitem', 'a': src, 'idx': ['all', i]}, p.arr(types, labels))
+    else:
+        a = _pc_fresh(p, rng, types, labels, dtype_a, fill=fills[0], layout=lay_a if lay_a in ('F', 'strided') else None)
+        qt = p.steps[a]['spec']['qtotal']
+        if lay_a in ('asfortran', 'real', 'imag'):     # (before a shallow copy is taken: the copy shall share the buffers)
+            _pc_relayout(p, rng, a, lay_a)
+            lay_a = None
+        if alias == 'self':
+            b = a
+        elif alias == 'shallow':
+            b = p.push({'op': 'copy_shallow', 'a': a}, p.arr(types, labels))
+        elif alias == 'shallow-extend':
+            # b = shallow copy of a; then a gets ADDITIONAL blocks (a += c, c stored exactly where a is not): a keeps the buffers it shares
+            # with b but has another block table -> the general merge meets blocks with the same data pointer
+            blocks = p.steps[a]['spec']['blocks']
+            h = max(1, len(blocks) // 2)
+            c = _pc_fresh(p, rng, types, labels, dtype_a, qtotal=qt, fill=1.0)
+            p.steps[c]['spec']['blocks'] = [dict(x) for x in blocks[h:]]
+            p.steps[a]['spec']['blocks'] = blocks[:h]
+            b = p.push({'op': 'copy_shallow', 'a': a}, p.arr(types, labels))
+            p.steps.append({'op': 'iadd', 'a': a, 'b': c})
+            p.regs.append({'kind': 'none'})
+        elif alias == 'same-blocks':
+            b = _pc_fresh(p, rng, types, labels, dtype_b, qtotal=qt, fill=1.0, layout=lay_b if lay_b in ('F', 'strided') else None)
+            p.steps[b]['spec']['blocks'] = [dict(x) for x in p.steps[a]['spec']['blocks']]
+            if dtype_b.startswith('complex') != dtype_a.startswith('complex'):
+                for x in p.steps[b]['spec']['blocks']:
+                    x['im'] = [1 for _ in x['re']] if dtype_b.startswith('complex') else None
+            rng.shuffle(p.steps[b]['spec']['blocks'])
+        else:
+            b = _pc_fresh(p, rng, types, labels, dtype_b, qtotal=qt, fill=fills[1], layout=lay_b if lay_b in ('F', 'strided') else None)
+        for r, l in ((a, lay_a), (b, lay_b)):
+            if l in ('asfortran', 'real', 'imag') and not (r == a and alias in ('self',) and l != lay_a):
+                _pc_relayout(p, rng, r, l)
+    if err == 'rank':
+        b = _pc_fresh(p, rng, types + [types[0]], labels + ['q'], dtype_b)
+    elif err == 'legs':
+        t2 = [list(t) for t in types]
+        t2[rng.randrange(rank)][2] *= -1
+        b = _pc_fresh(p, rng, t2, labels, dtype_b)
+    elif err == 'qtotal':
+        qt = p.steps[a]['spec']['qtotal']
+        if p.mods:
+            q2 = list(qt)
+            q2[0] = q2[0] + 1 if p.mods[0] == 1 else (q2[0] + 1) % p.mods[0]
+            b = _pc_fresh(p, rng, types, labels, dtype_b, qtotal=q2)
+    elif err == 'chinfo':
+        b = _pc_fresh(p, rng, types, labels, dtype_b)
+        p.steps[b]['spec']['chinfo'] = 'other'
+    elif err == 'not-array':
+        p.push({'op': 'iadd_prefactor_other', 'a': a, 'b_raw': rng.choice(['ndarray', 'float', 'none']), 's': pref}, {'kind': 'none'})
+        _pc_reuse(p, rng, a)
+        return p.case()
+    if rng.random() < 0.3:
+        _pc_relayout(p, rng, rng.choice([a, b]), 'sort')
+    op = 'iadd_prefactor_other'
+    if pref in (1.0, -1.0) and rng.random() < 0.5:
+        op = {1.0: rng.choice(['iadd', 'add']), -1.0: rng.choice(['isub', 'sub'])}[pref]
+    st = {'op': op, 'a': a, 'b': b}
+    if op == 'iadd_prefactor_other':
+        st['s'] = pref
+    r = a
+    if op in ('add', 'sub'):
+        r = p.push(st, p.arr(types, labels))
+    else:
+        p.steps.append(st)                        # (not through push: the write through a shallow copy is the point)
+        p.regs.append({'kind': 'none'})
+    _pc_reuse(p, rng, r)
+    c = p.case()
+    if alias in ('shallow', 'shallow-extend'):
+        c['unspecified'] = [b]                    # the state of the shallow copy after the write is documented as unspecified
+    elif b != a and rng.random() < 0.5:
+        _pc_reuse(p, rng, b)
+    return c
+
+
+def pc_iscale(rng, dtype, pref, lay, fill, op=None):
+    p = _pc_prog(rng, nq=rng.choice([0, 1, 2]), sizes=(1, 2, 2, 3))
+    rank = rng.choice([1, 2, 3, 4])
+    types = [['L', rng.randrange(len(p.pool)), rng.choice([1, -1])] for _ in range(rank)]
+    a = _pc_fresh(p, rng, types, None, dtype, fill=fill, layout=lay if lay in ('F', 'strided') else None)
+    if lay in ('asfortran', 'real', 'imag'):
+        _pc_relayout(p, rng, a, lay)
+    keep = p.push({'op': 'copy_deep', 'a': a}, p.arr_opaque())
+    op = op or rng.choice(['iscale_prefactor', 'iscale_prefactor', 'iscale', 'scale', 'rscale'])
+    if op in ('scale', 'rscale'):
+        r = p.push({'op': op, 'a': a, 's': pref}, p.arr_opaque())
+    else:
+        p.push({'op': op, 'a': a, 's': pref}, {'kind': 'none'})
+        r = a
+    _pc_reuse(p, rng, r)
+    p.push({'op': 'iadd_prefactor_other', 'a': keep, 'b': r, 's': -1.0}, {'kind': 'none'})
+    return p.case()
+
+
+def pc_inner(rng, dtype_a, dtype_b, do_conj, lay_a, lay_b, sort, fills, disjoint=False):
+    """inner(a, b) (public, with and without a transposition, and the worker) for operands with independent block sparsity"""
+    p = _pc_prog(rng, nq=rng.choice([0, 1, 1, 2]), sizes=(2, 2, 3) if (lay_a or lay_b) else (1, 2, 2, 3))
+    rank = rng.choice([1, 2, 2, 3, 4]) if not (lay_a or lay_b) else rng.choice([2, 2, 3, 4])
+    types = [['L', rng.randrange(len(p.pool)), rng.choice([1, -1])] for _ in range(rank)]
+    labels = rng.sample(LABELS[:8], rank)
+    a = _pc_fresh(p, rng, types, labels, dtype_a, fill=fills[0], layout=lay_a if lay_a in ('F', 'strided') else None)
+    qt = p.steps[a]['spec']['qtotal']
+    tb = [list(t) for t in types] if do_conj else [conj_t(t) for t in types]
+    lb = list(labels) if do_conj else [conj_label(l) for l in labels]
+    qb = list(qt) if do_conj else [(-x if m == 1 else (-x) % m) for x, m in zip(qt, p.mods)]
+    if rng.random() < 0.1:
+        qb = None                                    # mostly a different total charge: the result is an exact zero
+    b = _pc_fresh(p, rng, tb, lb, dtype_b, qtotal=qb, fill=fills[1], layout=lay_b if lay_b in ('F', 'strided') else None)
+    if disjoint:
+        # stored blocks of b exactly where a has none (same legs up to conj, same block indices): no common block
+        sa, sb = p.steps[a]['spec'], p.steps[b]['spec']
+        full = gen_tensor_spec(rng, p.mods, p.pool, tb, labels=lb, dtype=dtype_b, qtotal=sb['qtotal'], fill=1.0)['blocks']
+        have = {tuple(x['q']) for x in sa['blocks']}
+        rest = [x for x in full if tuple(x['q']) not in have]
+        if rest and sa['blocks']:
+            sb['blocks'] = rest
+    for r, l in ((a, lay_a), (b, lay_b)):
+        if l == 'asfortran':
+            _pc_relayout(p, rng, r, l)
+    if sort in ('a', 'both'):
+        _pc_relayout(p, rng, a, 'sort')
+    if sort in ('b', 'both'):
+        _pc_relayout(p, rng, b, 'sort')
+    for _ in range(rng.choice([1, 2])):
+        k = rng.random()
+        if k < 0.4:
+            p.push({'op': 'w_inner', 'a': a, 'b': b, 'do_conj': do_conj}, {'kind': 'scalar'})
+        elif k < 0.7:
+            p.push({'op': 'inner', 'a': a, 'b': b, 'axes': rng.choice(['range', 'labels']), 'do_conj': do_conj}, {'kind': 'scalar'})
+        else:
+            p.push({'op': 'tensordot', 'a': a, 'b': b, 'axes': rank}, {'kind': 'scalar'}) if not do_conj else \
+                p.push({'op': 'inner', 'a': b, 'b': a, 'axes': 'range', 'do_conj': True}, {'kind': 'scalar'})
+    # the operands once more (they must be unchanged, whatever copies the workers made)
+    p.push({'op': 'iadd_prefactor_other', 'a': a, 'b': a, 's': 1.0}, {'kind': 'none'})
+    return p.case()
+
+
+def pc_contract_errors(rng, kind, dtype):
+    """error classes of tensordot / inner: another ChargeInfo, axes lists of different lengths, legs that are not contractible,
+    different rank; and the argument forms of `axes` (single label, single int, numpy integers, tuples)"""
+    p = _pc_prog(rng, nq=rng.choice([1, 2]))
+    rank = rng.choice([2, 3])
+    types = [['L', rng.randrange(len(p.pool)), rng.choice([1, -1])] for _ in range(rank)]
+    labels = rng.sample(LABELS[:8], rank)
+    a = _pc_fresh(p, rng, types, labels, dtype, fill=1.0)
+    b = _pc_fresh(p, rng, [conj_t(t) for t in types], [conj_label(l) for l in labels], dtype, fill=1.0)
+    if kind == 'chinfo':
+        p.steps[b]['spec']['chinfo'] = 'other'
+        p.push({'op': 'tensordot', 'a': a, 'b': b, 'axes': rng.choice([1, [[rank - 1], [0]]])}, {'kind': 'junk'})
+        p.push({'op': 'inner', 'a': a, 'b': b, 'axes': 'range', 'do_conj': False}, {'kind': 'junk'})
+    elif kind == 'axes-lengths':
+        p.push({'op': 'tensordot', 'a': a, 'b': b, 'axes': [[0, 1], [0]]}, {'kind': 'junk'})
+        p.push({'op': 'tensordot', 'a': a, 'b': b, 'axes': [[], [0]]}, {'kind': 'junk'})
+    elif kind == 'not-contractible':
+        p.push({'op': 'tensordot', 'a': a, 'b': a, 'axes': rng.choice([1, [[0], [0]]])}, {'kind': 'junk'})
+        p.push({'op': 'inner', 'a': a, 'b': a, 'axes': 'range', 'do_conj': False}, {'kind': 'junk'})
+    elif kind == 'inner-rank':
+        c = _pc_fresh(p, rng, [conj_t(t) for t in types[:-1]], [conj_label(l) for l in labels[:-1]], dtype, fill=1.0)
+        p.push({'op': 'inner', 'a': a, 'b': c, 'axes': 'range', 'do_conj': False}, {'kind': 'junk'})
+        p.push({'op': 'w_inner', 'a': a, 'b': b, 'do_conj': True}, {'kind': 'junk'})     # legs conjugated: qtotal test only
+    elif kind == 'axes-forms':
+        i = rng.randrange(rank)
+        for ax in ([labels[i], conj_label(labels[i])], [i, i], [i - rank, [i]], [[labels[i]], i]):
+            r = p.push({'op': 'tensordot', 'a': a, 'b': b, 'axes': ax}, p.arr_opaque())
+        p.push({'op': 'tensordot', 'a': a, 'b': b, 'axes': 0}, p.arr_opaque())
+        p.push({'op': 'tensordot', 'a': a, 'b': b, 'axes': rank, 'axes_np': True}, {'kind': 'scalar'})
+        _pc_reuse(p, rng, r)
+    return p.case()
+
+
+def pc_skip_arg_checks(rng):
+    """VALID programs executed at optimization level 3 (skip_arg_checks): both twins skip their argument tests"""
+    k = rng.random()
+    dt1, dt2 = rng.choice(PC_DTYPES), rng.choice(PC_DTYPES)
+    if k < 0.35:
+        c = pc_tdot_int_axes(rng, dt1, dt2, None, None, None, rng.choice([0, 1, 2]))
+        # also the forms that need a transposition and the outer product
+        a = [i for i, s in enumerate(c['steps']) if s['op'] == 'new'][:2]
+        c['steps'].append({'op': 'tensordot', 'a': a[0], 'b': a[1], 'axes': 0})
+        sa, sb = c['steps'][a[0]]['spec'], c['steps'][a[1]]['spec']
+        n = [s['axes'] for s in c['steps'] if s['op'] in ('tensordot', 'w_tensordot')][0]
+        # (leg rank_a - n + i of a is the conjugate of leg i of b: contract ONE such pair, by label: needs transpositions)
+        i = rng.randrange(n)
+        c['steps'].append({'op': 'tensordot', 'a': a[0], 'b': a[1], 'axes': [[sa['labels'][len(sa['labels']) - n + i]], [sb['labels'][i]]]})
+    elif k < 0.6:
+        c = pc_iadd(rng, dt1, dt2, rng.choice([1.0, -1.0, 2.0, ['c', 0.0, 1.0]]), rng.choice(['none', 'none', 'self', 'same-blocks']),
+                    None, None, (rng.choice([1.0, 0.5]), rng.choice([1.0, 0.5, 0.0])))
+    elif k < 0.8:
+        c = pc_combine_split(rng, dt1, rng.choice([3, 4]), None, None, False)
+    else:
+        c = gen_inplace_chain_like(rng)
+    c['optimize'] = 3
+    return c
+
+
+def gen_inplace_chain_like(rng):
+    p = _pc_prog(rng, nq=rng.choice([0, 1, 2]))
+    rank = rng.choice([2, 3])
+    types = [['L', rng.randrange(len(p.pool)), rng.choice([1, -1])] for _ in range(rank)]
+    labels = rng.sample(LABELS[:8], rank)
+    a = _pc_fresh(p, rng, types, labels, rng.choice(PC_DTYPES))
+    b = _pc_fresh(p, rng, [conj_t(t) for t in types], [conj_label(l) for l in labels], rng.choice(PC_DTYPES))
+    perm = list(range(rank))
+    rng.shuffle(perm)
+    bt = p.push({'op': 'transpose', 'a': b, 'axes': perm}, p.arr_opaque())
+    p.push({'op': 'inner', 'a': a, 'b': bt, 'axes': [list(range(rank)), [perm.index(i) for i in range(rank)]], 'do_conj': False}, {'kind': 'scalar'})
+    p.push({'op': 'inner', 'a': a, 'b': a, 'axes': 'labels', 'do_conj': True}, {'kind': 'scalar'})
+    p.push({'op': 'tensordot', 'a': a, 'b': b, 'axes': [[labels[0]], [conj_label(labels[0])]]}, p.arr_opaque())
+    return p.case()
+
+
+def gen_pair_classes(rng, i):
+    """the i-th program of the stratified family (the strata are cycled deterministically; details from rng)"""
+    k = i % 18
+    j = i // 18
+    dts = PC_DTYPES
+    if k in (0, 1, 2):          # tensordot with integer axes: dtype pair x layouts x sortedness x number of charges
+        lays = [None, 'F', 'strided', 'asfortran', 'real']
+        da, db = dts[j % 5], dts[(j // 5 + j) % 5]
+        la, lb = lays[(j + k) % 5], lays[(j // 2 + 2 * k) % 5]
+        if la == 'real' and not da.startswith('complex'):
+            la = 'strided'
+        if lb == 'real' and not db.startswith('complex'):
+            lb = 'strided'
+        keep = [(0, 1), (1, 0), (0, 2), (2, 0)][(j // 3) % 4] if (k == 2 and j % 3 == 0) else None
+        if k == 1 and j % 4 == 1:                      # three contracted legs
+            return pc_tdot_int_axes(rng, da, db, la, lb, None, [0, 1, 2][(j // 4) % 3], keep=(1, 1), fill=1.0, ncon=3)
+        return pc_tdot_int_axes(rng, da, db, la, lb, [None, 'b', 'both', 'a'][(j + k) % 4], 0 if keep else [0, 1, 2, 2][(j // 3) % 4],
+                                keep=keep, fill=1.0 if keep else None)
+    if k in (3, 4, 5):          # combine / split: dtype x rank 3-6 x layouts x nested pipes
+        d = dts[(j + k) % 5]
+        how = [None, 'F', 'strided', 'asfortran'][(j // 2) % 4]
+        rel = [None, 'asfortran', 'real' if d.startswith('complex') else 'asfortran', None][(j + k) % 4]
+        rank = [3, 4, 5, 6, 4, 5][(j + k) % 6]
+        return pc_combine_split(rng, d, rank, how, rel, nested=(j % 3 == 1), fill=0.0 if (k == 5 and j % 6 == 5) else None,
+                                one_group=2 if (rank == 6 and j % 2 == 0) else None)
+    if k == 6 and j < len(PC_IADD_FORCED):
+        return pc_iadd(rng, *PC_IADD_FORCED[j])
+    if k in (6, 7, 8, 9):       # iadd_prefactor_other: calc dtype x prefactor class x aliasing x merge arms x layouts
+        da, db = dts[j % 5], dts[(j // 5 + j + k) % 5]
+        pref = PC_PREF[(j * 4 + k) % len(PC_PREF)]
+        alias = ['none', 'none', 'self', 'shallow', 'same-blocks', 'views', 'shallow-extend'][(j + k) % 7]
+        if alias == 'shallow-extend' and j % 2 == 0:      # keep the buffers shared: no dtype change by the operation
+            da = db = ['float64', 'complex128'][(j // 2) % 2]
+            pref = [2.5, -1.0, 1.0, 3][(j // 4) % 4]
+        lays = [None, None, 'F', 'strided', 'asfortran']
+        fills = [(1.0, 1.0), (0.5, 0.5), (1.0, 0.3), (0.3, 1.0), (0.0, 1.0), (1.0, 0.0), (0.0, 0.0)][(j // 2 + k) % 7]
+        return pc_iadd(rng, da, db, pref, alias, None if alias == 'shallow-extend' else lays[(j + 1) % 5], lays[(j // 3) % 5],
+                       (1.0, 1.0) if alias == 'shallow-extend' else fills)
+    if k == 10:                 # iscale_prefactor: dtype x prefactor class (incl. non-scalars) x layout x number of blocks
+        prefs = PC_PREF + PC_BAD_PREF
+        if j < len(PC_ISCALE_FORCED):
+            return pc_iscale(rng, *PC_ISCALE_FORCED[j])
+        return pc_iscale(rng, dts[j % 5], prefs[(7 * j + 5) % len(prefs)], [None, 'F', 'strided', 'asfortran'][(j // 5 + j) % 4], [1.0, 0.5, 0.0, 1.0][(j // 3) % 4])
+    if k == 11:                 # error classes of iadd_prefactor_other
+        err = ['rank', 'legs', 'qtotal', 'chinfo', 'not-array', 'bad-pref'][j % 6]
+        pref = rng.choice(PC_BAD_PREF) if err == 'bad-pref' else rng.choice([1.0, 2.0, ['c', 0.0, 1.0], 0.0])
+        return pc_iadd(rng, dts[j % 5], dts[(j + 2) % 5], pref, 'none', None, None, (1.0, 1.0), err=None if err == 'bad-pref' else err)
+    if k == 12:                 # error classes / argument forms of tensordot and inner
+        return pc_contract_errors(rng, ['chinfo', 'axes-lengths', 'not-contractible', 'inner-rank', 'axes-forms'][j % 5], dts[(j // 5) % 5])
+    if k in (13, 14):
+        return pc_skip_arg_checks(rng)
+    if k in (16, 17):           # inner: dtype pair x do_conj x layouts x sortedness x common blocks
+        lays = [None, 'F', 'strided', 'asfortran', 'F']
+        return pc_inner(rng, dts[j % 5], dts[(j // 5 + j + k) % 5], bool((j + k) % 2), lays[(j + k) % 5], lays[(j // 2 + k) % 5],
+                        [None, 'a', 'b', 'both'][(j // 2) % 4],
+                        (0.5, 1.0) if (k == 17 and j % 4 == 2) else [(1.0, 1.0), (0.5, 0.5), (1.0, 0.3), (0.3, 0.3)][(j // 3) % 4],
+                        disjoint=(k == 17 and j % 4 == 2))
+    # k == 15: many result blocks (more than the 64 pre-reserved constants of the batched gemm), no / trivial charges
+    p = _pc_prog(rng, nq=rng.choice([0, 0, 1]), nblocks=3, sizes=(1, 1, 2))
+    if p.mods:
+        for l in p.pool:
+            l['charges'] = [[0] * len(p.mods) for _ in l['charges']]
+    d = dts[j % 2]
+    ta = [['L', rng.randrange(len(p.pool)), 1] for _ in range(3)]
+    tb = [conj_t(ta[2])] + [['L', rng.randrange(len(p.pool)), -1] for _ in range(2)]
+    a = _pc_fresh(p, rng, ta, ['a', 'b', 'c'], d, qtotal=[0] * len(p.mods), fill=1.0)
+    b = _pc_fresh(p, rng, tb, ['c*', 'd', 'e'], dts[(j // 2) % 2], qtotal=[0] * len(p.mods), fill=1.0)
+    r = p.push({'op': 'tensordot', 'a': a, 'b': b, 'axes': rng.choice([1, [['c'], ['c*']]])}, p.arr_opaque())
+    _pc_reuse(p, rng, r)
+    return p.case()
